@@ -379,3 +379,7 @@ def run(ctx, rep):
             rep.violation("selector-siblings", "%s::as_str" % enum, "cannot extract the variant->string table: %s" % e)
     sqlrules.clause_selectors(prog, rep, sites, as_strs, only=("invalidate_messages_after_epoch", "invalidate_processed_messages_after_epoch",
                                                                "find_failed_messages_for_retry", "mark_processed_message_retryable"))
+    # a message saved again (re-sent on the winning branch, confirmed by its echo) replaces the stored row whatever its state: the message
+    # upserts assign every column, unconditionally, keyed by the primary key (shared with C10 / C18)
+    rep.clause("C02.5c the message / processed-message upserts replace the stored row completely and unconditionally")
+    sqlrules.clause_upserts(prog, rep, sqlmod.Schema(), sites, only_tables={"messages", "processed_messages"})
